@@ -42,6 +42,11 @@ class P:
         self.ref = ref
         self.d = d if d is not None else {}
 
+    def __getattr__(self, n):
+        # only reached for names the object does not have: somebody probes the user's object (hasattr(obj, "__iter__"), ...)
+        LOG.append(("probe", self.__dict__.get("name"), n))
+        raise AttributeError(n)
+
     def m(self, k):
         LOG.append(("call", self.name, "m"))
         return self.__dict__["_a"] + k
